@@ -87,7 +87,19 @@ class FV:
         self.registry = None  # Effects instance (shared cache of function views), set by Effects.fv
         self.res.inliner = self._inline
         self._inlining = False
-        for cname, cval in f.module.assigns.items():
+        consts = list(f.module.assigns.items())
+        for local_, dotted in f.module.imports.items():
+            # a constant of another module of the package imported by name (also: made known here by an expanded helper)
+            modn, _, attr_ = dotted.rpartition(".")
+            om = prog.modules.get(modn)
+            if om is not None and attr_ in om.assigns and local_ not in f.module.assigns:
+                consts.append((local_, om.assigns[attr_]))
+        for cname, cval in consts:
+            if isinstance(cval, ast.Call) and isinstance(cval.func, ast.Name) and cval.func.id in ("frozenset", "set", "tuple", "list") and len(cval.args) == 1 and not cval.keywords \
+                    and isinstance(cval.args[0], (ast.Set, ast.Tuple, ast.List)):
+                # frozenset({...}) / tuple([...]) of literals: read as the literal collection of that kind
+                kind = ast.Set if cval.func.id in ("frozenset", "set") else ast.Tuple if cval.func.id == "tuple" else ast.List
+                cval = ast.copy_location(kind(elts=list(cval.args[0].elts)) if kind is ast.Set else kind(elts=list(cval.args[0].elts), ctx=ast.Load()), cval)
             if isinstance(cval, ast.Constant) and isinstance(cval.value, (str, int, float)) and not isinstance(cval.value, bool):
                 self.res.module_consts[cname] = cval
             elif isinstance(cval, (ast.Set, ast.Tuple, ast.List)) and cval.elts and len(cval.elts) <= 12 and all(
